@@ -32,6 +32,7 @@ def run(ctx):
              "writes under X of the object's own mutex)", floor=60)
     for cls, names in OPS.items():
         ctx.step(check_guarded_fields, ctx, "C15.guard", cls, only_functions=names + ("lock_shared",), assume_enabled=False)
+    ctx.step(common.handle_deref_lifetime, ctx, "C15.lifetime", list(OPS), floor=4)
     ctx.step(onecs, ctx)
     ctx.step(flow_rules, ctx)
     ctx.step(common.witnesses, ctx, "C15.witness", ["C15"])
